@@ -1304,6 +1304,7 @@ Qed.
 Lemma config_service_wf ss name ty : word name -> Forall wfslot ss -> Forall wfslot (config_service ss name ty).
 Proof.
   intros Hn H. unfold config_service. apply retype_wf. destruct (find_name ss name); [exact H|].
+  destruct (free_index ss <? max_slots)%nat; [|exact H].
   destruct (has_empty ss); [apply fill_empty_wf; [exact Hn|exact H]|]. apply Fa_app; [exact H|]. constructor; [exact Hn|constructor].
 Qed.
 Theorem services_changed_wf ss entries :
